@@ -420,6 +420,8 @@ func c09CLI(c *lib.Ctx, bin string, cmdName string, entries int, only *c09Case) 
 		"save":          {"save", "--", c09NewEntry.Command, c09NewEntry.Description},
 		"save-pipeline": {"save-pipeline", "--", "mypipe", c09NewEntry.Command},
 		"search":        {"--no-color", "-d", "main.yml", "list", "files"},
+		// an existing entry replaced by a much shorter one: the new file is shorter than the old one
+		"save-shorter": {"save", "--", c09Notebook(1)[0].Command, "x"},
 	}[cmdName]
 	// unlimited run: the new content's length bounds k
 	env, target, old := setup()
@@ -515,7 +517,7 @@ func c09Run(c *lib.Ctx) {
 	if c.Thorough() {
 		cliSizes = append(cliSizes, 40)
 	}
-	for _, cmd := range []string{"save", "save-pipeline", "search"} {
+	for _, cmd := range []string{"save", "save-pipeline", "search", "save-shorter"} {
 		for _, n := range cliSizes {
 			jobs = append(jobs, job{base: c09Case{Entries: n}, cli: cmd})
 		}
@@ -558,7 +560,7 @@ func init() {
 	lib.Subs["fsize"] = c09FsizeChild
 	lib.Register(&lib.Check{
 		ID: "C09", Level: "fault_enumeration",
-		Rule:      "exhaustive crash-point and error-point enumeration at the os seam (vos) on the real write paths: for the notebook save (saveToPersonalDatabase) and the history update made by every search (Load, AddEntry, Save), starting from a missing file and from files of 0, 1, 5 (quick) and 40 (thorough) entries, as the second write of a two-write history, and with the file being a symbolic link to a file kept elsewhere: a dry run records the mutating file-system steps (mkdir, create/truncate, every write, sync, chmod, close, rename, remove); then a crash is injected at EVERY step boundary and at EVERY byte offset of every write (later clean-up calls are dropped, as in a killed process), and ENOSPC and EIO are injected at the same positions; after each, the file as a fresh process finds it must equal the complete previous or the complete new content, a write that did not take effect must have returned an error, and the earlier entries must load. Two-fault histories: the first write is killed at EVERY crash point, then a fresh process completes a second, shorter write; the file must hold exactly that write's content (no reuse of leftovers). Process twin: the real `wtf save`, `wtf save-pipeline` and `wtf <query>` re-executed under RLIMIT_FSIZE = k for EVERY k in 0..len(new content), same oracle on the file plus 'saved successfully' only if saved. evaluations = injected runs; non-trivial = runs in which the fault fired",
+		Rule:      "exhaustive crash-point and error-point enumeration at the os seam (vos) on the real write paths: for the notebook save (saveToPersonalDatabase) and the history update made by every search (Load, AddEntry, Save), starting from a missing file and from files of 0, 1, 5 (quick) and 40 (thorough) entries, as the second write of a two-write history, and with the file being a symbolic link to a file kept elsewhere: a dry run records the mutating file-system steps (mkdir, create/truncate, every write, sync, chmod, close, rename, remove); then a crash is injected at EVERY step boundary and at EVERY byte offset of every write (later clean-up calls are dropped, as in a killed process), and ENOSPC and EIO are injected at the same positions; after each, the file as a fresh process finds it must equal the complete previous or the complete new content, a write that did not take effect must have returned an error, and the earlier entries must load. Two-fault histories: the first write is killed at EVERY crash point, then a fresh process completes a second, shorter write; the file must hold exactly that write's content (no reuse of leftovers). Process twin: the real `wtf save`, `wtf save-pipeline`, `wtf <query>` and a `wtf save` that replaces an existing entry by a much shorter one (new file shorter than the old) re-executed under RLIMIT_FSIZE = k for EVERY k in 0..len(new content), same oracle on the file plus 'saved successfully' only if saved. evaluations = injected runs; non-trivial = runs in which the fault fired",
 		Assume:    []string{"file-system calls of the write path go through os.* functions that the build overlay routes to vos; a crash preserves the bytes already written (prefix model), no reordering of un-synced data", "history content is made deterministic with the virtual clock"},
 		QuickSecs: 200, ThorSecs: 1500,
 		Run: c09Run,
@@ -585,7 +587,7 @@ func init() {
 			if m.Counters["injected:crash"] < 500 {
 				return "vacuous: fewer than 500 crash points - the write path is not going through the instrumented seam"
 			}
-			for _, k := range []string{"injected:crash", "injected:ENOSPC", "injected:EIO", "injected:crash-then-write", "fsize_runs:save", "fsize_runs:save-pipeline", "fsize_runs:search"} {
+			for _, k := range []string{"injected:crash", "injected:ENOSPC", "injected:EIO", "injected:crash-then-write", "fsize_runs:save", "fsize_runs:save-pipeline", "fsize_runs:search", "fsize_runs:save-shorter"} {
 				if m.Counters[k] == 0 {
 					return "vacuous: counter " + k + " is zero"
 				}
